@@ -839,9 +839,56 @@ func denominatorSignRule(p *core.Program, r *core.Report, rule string, targets [
 		return ok && b.Info()&types.IsFloat != 0
 	}
 	for _, t := range targets {
-		fn := mustFn(p, r, rule, t[0], t[1])
-		if fn == nil {
+		entry := mustFn(p, r, rule, t[0], t[1])
+		if entry == nil {
 			continue
+		}
+		// the kernel may have been split: the denominator is looked for in the target and in the functions of its
+		// package it calls (two levels), and analysed where it is found
+		cands := []*ssa.Function{entry}
+		for depth := 0; depth < 2; depth++ {
+			for _, f := range append([]*ssa.Function{}, cands...) {
+				for _, c := range eng.Calls(f) {
+					g := eng.StaticCallee(c)
+					if g == nil || g.Blocks == nil || core.FnPkgPath(g) != core.FnPkgPath(entry) {
+						continue
+					}
+					dup := false
+					for _, x := range cands {
+						dup = dup || x == g
+					}
+					if !dup {
+						cands = append(cands, g)
+					}
+				}
+			}
+		}
+		hasDenom := func(f *ssa.Function) bool {
+			for _, b := range f.Blocks {
+				for _, in := range b.Instrs {
+					bo, ok := in.(*ssa.BinOp)
+					if !ok || !isFloat(bo.X.Type()) {
+						continue
+					}
+					k, isC := bo.Y.(*ssa.Const)
+					if !isC || k.Value == nil || k.Float64() != 0 {
+						continue
+					}
+					if bo.Op == token.EQL || bo.Op == token.NEQ || bo.Op == token.LEQ {
+						if _, isSub := bo.X.(*ssa.BinOp); isSub {
+							return true
+						}
+					}
+				}
+			}
+			return false
+		}
+		fn := entry
+		for _, f := range cands {
+			if hasDenom(f) {
+				fn = f
+				break
+			}
 		}
 		// denominators: float values compared with the constant 0 by ==, !=, <= or >=  and used as a divisor or compared further
 		var denoms []ssa.Value
@@ -863,7 +910,7 @@ func denominatorSignRule(p *core.Program, r *core.Report, rule string, targets [
 				}
 			}
 		}
-		key := short(fn)
+		key := short(entry)
 		if len(denoms) == 0 {
 			r.Bad(rule, key, p.Pos(fn.Pos()), "no denominator (a computed value tested against 0) found: the parallel case is not separated")
 			continue
